@@ -266,6 +266,26 @@ CHECKS['C15'] = dict(
          'external links in .xlsx are not generated.',
     technique='Lean 4 proof (evaluation locality on the workbook model) + partial-vs-full differential check')
 
+CHECKS['C11'] = dict(
+    text=('Lean 4 theorems (XL.Props.C11): table_classified / no_stale_names / classes_disjoint — every name of the '
+          'implementation\'s function table (regenerated from /repo on every run) is in exactly one of the hand-written classes '
+          'modelled / structural / swept, so a function added to the library breaks the build of the property until it is '
+          'classified; lift_only_broadcast (the element-wise combinator can only fail with the broadcast error); num1_error, '
+          'num2_error_left/right, num1_text, agg_error, agg_error_result, text_error, concat_error, textjoin_error, xor_error, '
+          'switch_error (the first error of the consumed arguments is the result); is_answers_logical, count_answers_number, '
+          'iferror_replaces (the documented exemptions). In the model a value is an Excel value by typing. For the swept class '
+          '(about 100 functions: financial, distributions, date parts, formats, matrices) only the enumeration below applies '
+          '(partial). The check calls EVERY name of the table with 0..4 arguments over values of every kind (numbers, text, '
+          'logicals, blank references, #N/A, #DIV/0!, row/column/matrix arrays with mixed content), directly and through '
+          'compiled formulas: nothing may be raised, results must consist of Excel values (finite numbers), an error in a '
+          'consumed argument must give a result containing an error unless the function is in the exemption table.'),
+    design='DESIGN.md §3 C11, §9',
+    note=COMMON_NOTE + 'Trusted: the hand-written exemption table (harness/checks/c11.py EXEMPT, with reasons) and class lists '
+         '(lean/XL/Model/FnClass.lean); admissible argument counts are probed with plain numbers. Known finding: '
+         'broadcast-error (incompatible array shapes raise, asserted by the pinned suite). Fixed by this check: non-finite '
+         'elements of array results, TRANSPOSE of a scalar error; earlier: 881e95b, f30699a.',
+    technique='Lean 4 proof (classification of the regenerated function table; error propagation of the model combinators) + exhaustive-over-names enumeration on the implementation')
+
 CHECKS['C12'] = dict(
     text=('Lean 4 reference definitions (XL.Model.Fn) of the listed functions written from the Excel documentation: logical (IF, IFS, '
           'SWITCH, AND, OR, XOR, NOT, IFERROR, IFNA), information (IS... family, ISODD, ISEVEN), aggregation (SUM, PRODUCT, SUMSQ, '
